@@ -19,3 +19,4 @@ import TLX.Props.Translated.TlsSess2
 import TLX.Props.Translated.Reasm2
 import TLX.Props.Translated.KeySched
 import TLX.Props.Translated.Builders
+import TLX.Props.Translated.Decrypt
